@@ -64,7 +64,7 @@ func (H) ID() string { return "C09" }
 
 // Faults implements core.Harness.
 func (H) Faults() core.FaultMenu {
-	return core.FaultMenu{MapOrder: true, MaxSteps: 4000, PCTSteps: 120}
+	return core.FaultMenu{MapOrder: true, MaxSteps: 12000, PCTSteps: 120}
 }
 
 // Decode implements core.Harness.
